@@ -36,6 +36,13 @@ Definition run (op : bytes) (args : list val) : val :=
   else if op_is op "td.minutes" then i64_1 (fun z => vo_td (try_minutes z))
   else if op_is op "td.seconds" then i64_1 (fun z => vo_td (try_seconds z))
   else if op_is op "td.millis" then i64_1 (fun z => val_of_R vo_td (try_milliseconds z))
+  (* the panicking constructors: expect of the try_ form *)
+  else if op_is op "td.pweeks" then i64_1 (fun z => val_of_R enc_td (unwrap (try_weeks z)))
+  else if op_is op "td.pdays" then i64_1 (fun z => val_of_R enc_td (unwrap (try_days z)))
+  else if op_is op "td.phours" then i64_1 (fun z => val_of_R enc_td (unwrap (try_hours z)))
+  else if op_is op "td.pminutes" then i64_1 (fun z => val_of_R enc_td (unwrap (try_minutes z)))
+  else if op_is op "td.pseconds" then i64_1 (fun z => val_of_R enc_td (unwrap (try_seconds z)))
+  else if op_is op "td.pmillis" then i64_1 (fun z => val_of_R enc_td (unwrap_r (try_milliseconds z)))
   else if op_is op "td.micros" then i64_1 (fun z => val_of_R enc_td (microseconds z))
   else if op_is op "td.nanos" then i64_1 (fun z => val_of_R enc_td (nanoseconds z))
   else if op_is op "td.acc" then td_1 (fun d => val_of_R (fun v => v) (td_acc d))
